@@ -460,6 +460,12 @@ fn translate_block(
                 Ok(())
             }
 
+            let in_delay_slot = matches!(
+                branch_delay,
+                TranslateBranchDelay::DelaySlot(..)
+                    | TranslateBranchDelay::DelaySlotFallThrough(..)
+            );
+
             // Before we even attempt to handle an instruction with a delay
             // slot, make sure we have enough bytes left over to handle the
             // delay slot
@@ -480,19 +486,16 @@ fn translate_block(
                 | capstone::mips_insn::MIPS_INS_JAL
                 | capstone::mips_insn::MIPS_INS_JALR
                 | capstone::mips_insn::MIPS_INS_JR => {
-                    if bytes.len() == DEFAULT_TRANSLATION_BLOCK_BYTES && offset + 8 >= bytes.len() {
+                    if bytes.len() == DEFAULT_TRANSLATION_BLOCK_BYTES
+                        && offset + 8 >= bytes.len()
+                        && !in_delay_slot
+                    {
                         successors.push((address + offset as u64, None));
                         break;
                     }
                 }
                 _ => {}
             }
-
-            let in_delay_slot = matches!(
-                branch_delay,
-                TranslateBranchDelay::DelaySlot(..)
-                    | TranslateBranchDelay::DelaySlotFallThrough(..)
-            );
 
             // We need to make the conditional branch comparison, save it to a
             // temporary, and branch based on the temporary.
